@@ -641,7 +641,9 @@ def reindex_axis(self, values, axis=0, fill_value=np.nan, raise_error=False, met
         shape[pos] = values.size
         newvalues = np.empty(shape, dtype=_maybe_cast_type(self.values, fill_value).dtype)
         newvalues.fill(fill_value)
-        newaxes = [axx.copy() if i != pos else Axis(values, name, **ax.attrs) for i, axx in enumerate(self.axes)]
+        newaxis = Axis(values, name)
+        newaxis.attrs.update(ax.attrs)
+        newaxes = [axx.copy() if i != pos else newaxis for i, axx in enumerate(self.axes)]
         newobj = self._constructor(newvalues, newaxes)
         newobj.attrs.update(self.attrs)
         return newobj
